@@ -318,9 +318,10 @@ def check(rec, kind, idx, rng, tier):
         res = one_call(rec, fname, args, aux, snaps, dt, lay, dask, seq_pos=pos, extra_pay=dict(sequence=seq))
         if res is not None:
             okc += 1
-            if fname == 'viewshed':
-                # documented exception: viewshed may widen its input's dtype (values already verified unchanged); re-baseline
-                snaps = [Snap(a) for a in args]
+        if fname == 'viewshed' and all(s_.diff(a_, allow_widen=True) is None for a_, s_ in zip(args, snaps)):
+            # documented exception: viewshed may widen its input's dtype without changing a value (it does so before the sweep,
+            # hence also when the call is later rejected); re-baseline so that later calls are not blamed for it
+            snaps = [Snap(a) for a in args]
     if okc >= 3:
         rec.ok('sequence_len>=3')
     rec.ok('funcs_covered', 0)
